@@ -1,9 +1,11 @@
 #!/bin/bash
 # runs the named check against every harmless rewrite under seeded/harmless (each must stay silent, exit 0)
 cd "$(dirname "$0")/.."
-for d in seeded/harmless/H*/; do
-  id=$(basename $d); prop=$(python3 -c "import json;print(json.load(open('$d/meta.json'))['checks'][0])")
-  out=$(tools/try_patch.sh $d/patch.diff $prop 2>&1); rc=$?
-  v=$(echo "$out" | grep -c "^VIOLATION")
-  echo "$id $prop rc=$rc violations=$v :: $(echo "$out" | tail -1 | cut -c1-120)"
+for d in $(ls -d seeded/harmless/H*/ | sort -V); do
+  id=$(basename $d)
+  for prop in $(python3 -c "import json;print(' '.join(json.load(open('$d/meta.json'))['checks']))"); do
+    out=$(tools/try_patch.sh $d/patch.diff $prop 2>&1); rc=$?
+    v=$(echo "$out" | grep -c "^VIOLATION")
+    echo "$id $prop rc=$rc violations=$v :: $(echo "$out" | tail -1 | cut -c1-120)"
+  done
 done
